@@ -33,6 +33,7 @@ import (
 	"os"
 	"path/filepath"
 	"sort"
+	"sync/atomic"
 	"strings"
 	"sync"
 	"time"
@@ -76,6 +77,9 @@ type opIn struct {
 	Addr string `json:"addr,omitempty"` // hex
 	// poll: a registration of Rec by node (n+1) mod nodes happens Delay ms after the polling lookup started
 	Delay int64 `json:"delay,omitempty"`
+	// reg: the struct handed to RegisterWaitingTunnel already CARRIES CreatedAt/ExpiresAt of an earlier life (the same struct
+	// published again, a looked-up record re-homed to this node): the registration must stamp it afresh
+	Carry bool `json:"carry,omitempty"`
 	// the shared tier (miniredis) fails every command for the duration of THIS call only
 	Fault bool `json:"fault,omitempty"`
 	// forward stream: "addr" registers listener K as the node's address, "fwd" forwards a fresh tunnel
@@ -401,6 +405,10 @@ func runCase(c caseIn) *caseOut {
 			oo.T1, oo.Res = since(), "ok"
 		case "reg":
 			st := toState(o.Rec)
+			if o.Carry {
+				st.CreatedAt = base.Add(-2 * ttl)
+				st.ExpiresAt = st.CreatedAt.Add(ttl)
+			}
 			before := *st
 			oo.T0 = since()
 			err := rt.RegisterWaitingTunnel(context.Background(), st)
@@ -1511,6 +1519,88 @@ func runForward(c caseIn) *forwardOut {
 }
 
 // ---------------------------------------------------------------------------------------------
+// flight: every LookupWaitingTunnel answers from ITS OWN storage read.  Lookup #1 of tunnel T on a node is parked right after its
+// storage Get returned (gate store); T is removed / re-homed to another node by a call that RETURNS; lookup #2 of T on the same
+// node is started strictly afterwards; then #1 is released.  #1 may answer the old record (it read before the change); #2 must
+// answer the state after the change.
+// ---------------------------------------------------------------------------------------------
+
+type gateStore struct {
+	storage.Storage
+	armed   atomic.Bool
+	reached chan struct{}
+	release chan struct{}
+}
+
+func (g *gateStore) Get(key string) (interface{}, error) {
+	v, err := g.Storage.Get(key)
+	if g.armed.CompareAndSwap(true, false) {
+		close(g.reached)
+		<-g.release
+	}
+	return v, err
+}
+
+func runFlight(c caseIn) *concOut {
+	out := &concOut{Stream: "flight", Backend: c.Backend, Way: c.Way, PropOK: true, FailAt: -1}
+	bg := context.Background()
+	gs := &gateStore{Storage: memory.New(bg), reached: make(chan struct{}), release: make(chan struct{})}
+	rt := tunnel.NewRoutingTable(gs, 30*time.Second)   // the node both lookups run on
+	peer := tunnel.NewRoutingTable(gs, 30*time.Second) // another node on the same store
+	first := toState(c.Recs[0])
+	second := toState(c.Recs[1])
+	tid := first.TunnelID
+	must(peer.RegisterWaitingTunnel(bg, first))
+	type ans struct {
+		st  *tunnel.WaitingState
+		err error
+	}
+	a1 := make(chan ans, 1)
+	a2 := make(chan ans, 1)
+	gs.armed.Store(true)
+	go func() { st, err := rt.LookupWaitingTunnel(bg, tid); a1 <- ans{st, err} }()
+	<-gs.reached // lookup #1 has read the first record and is parked
+	must(peer.RemoveWaitingTunnel(bg, tid))
+	if c.Way == "rehome" {
+		must(peer.RegisterWaitingTunnel(bg, second))
+	}
+	go func() { st, err := rt.LookupWaitingTunnel(bg, tid); a2 <- ans{st, err} }()
+	var r2 ans
+	select {
+	case r2 = <-a2:
+	case <-time.After(150 * time.Millisecond):
+		// #2 did not answer by itself: it waits for #1 - release and take what it says
+		close(gs.release)
+		r2 = <-a2
+	}
+	select {
+	case <-gs.release:
+	default:
+		close(gs.release)
+	}
+	r1 := <-a1
+	out.Judged = 2
+	if r1.err == nil && r1.st.SourceNodeID != first.SourceNodeID {
+		out.PropOK, out.PropKey, out.PropMsg = false, "flight-first-lookup", "lookup #1 answered a record it cannot have read"
+	}
+	switch {
+	case c.Way == "rehome" && (r2.err != nil || r2.st.SourceNodeID != second.SourceNodeID):
+		got := fmt.Sprint(r2.err)
+		if r2.err == nil {
+			got = "node " + r2.st.SourceNodeID
+		}
+		out.PropOK, out.PropKey = false, "lookup-answers-from-another-lookups-read"
+		out.PropMsg = fmt.Sprintf("flight/rehome: lookup #1 of %s was parked after its storage read; the id was removed and registered again from %q (both calls returned); lookup #2, started after that, answered %s instead of %q", short(tid), second.SourceNodeID, got, second.SourceNodeID)
+	case c.Way != "rehome" && r2.err == nil:
+		out.PropOK, out.PropKey = false, "lookup-answers-from-another-lookups-read"
+		out.PropMsg = fmt.Sprintf("flight/remove: lookup #1 of %s was parked after its storage read; RemoveWaitingTunnel returned; lookup #2, started after that, still resolved the id to %q", short(tid), r2.st.SourceNodeID)
+	case c.Way != "rehome" && r2.err != tunnel.ErrNotFound && r2.err != tunnel.ErrExpired:
+		out.PropOK, out.PropKey, out.PropMsg = false, "lookup-error-not-sentinel", fmt.Sprintf("flight: lookup #2 failed with %v", r2.err)
+	}
+	return out
+}
+
+// ---------------------------------------------------------------------------------------------
 // probes (reported, never judged): aliasing of the caller's struct, the map[string]interface{} decode path
 // ---------------------------------------------------------------------------------------------
 
@@ -1832,6 +1922,8 @@ func main() {
 				results[i] = runBridge(c)
 			} else if c.Stream == "forward" {
 				results[i] = runForward(c)
+			} else if c.Stream == "flight" {
+				results[i] = runFlight(c)
 			} else if c.Stream == "conc" {
 				results[i] = runConc(c)
 			} else if c.Stream == "sweep" {
